@@ -151,6 +151,7 @@ func checkExpect(c ExpectCase) error {
 	}
 	e := newEngine(c.Templates)
 	NewSpies().Install(e)
+	e.EnableSandbox(allowAll{}) // only matters for `include ... sandboxed`, which needs a policy to exist
 	n := 1
 	if c.Twice {
 		n = 2
